@@ -389,6 +389,37 @@ def model_failed(ctx, suite, outs):
     return False
 
 
+def judge_group(ctx, suite, form, texts, hows, lv, exps, same=True):
+    """lv = one level of lexfn.observe on texts[0] (the base) and its behaviour-neutral variants.
+    Every text is judged against the printed text expected by construction (exps: one for all, or a
+    list); with same, every variant must also have the verdict, sections and trace of the base."""
+    if isinstance(exps, str):
+        exps = [exps] * len(texts)
+    rs = lv['texts']
+    b = rs[0]
+    for i, (t, how, x, exp) in enumerate(zip(texts, hows, rs, exps)):
+        det = {'suite': suite, 'level': lv['level'], 'form': form, 'how': how, 'a': texts[0], 'b': t,
+               'verdict': x['v'], 'printed': x.get('out'), 'expected_print': exp, 'seq': None if same else texts[:i + 1]}
+        if i == 0 and x['v'] != 'ok':
+            ctx.report(f'C14/generator-produced-rejected-program({suite};{form})', det, False)
+            continue
+        if same and i > 0:
+            if x['v'] != b['v']:
+                ctx.report(f'C14/{suite}-changes-verdict({form};{how};{b["v"]}->{x["v"]})', det, True)
+                continue
+            if x.get('sec') != b.get('sec') or x.get('trace') != b.get('trace'):
+                secs = [k + 1 for k in range(4) if x['sec'][k] != b['sec'][k]]
+                det['base_printed'] = b.get('out')
+                ctx.report(f'C14/{suite}-changes-sections({form};{how};sections={secs};'
+                           f'trace_same={x.get("trace") == b.get("trace")})', det, True)
+                continue
+        if x['v'] != 'ok':
+            ctx.report(f'C14/{suite}-rejected({form};{how};{x["v"]})', det, i > 0)
+        elif x.get('out') != exp or x.get('outcome') != b.get('outcome'):
+            # the text does not do what it says: judged against the expectation known by construction
+            ctx.report(f'C14/{suite}-prints-other-text({form};{how})', det, True)
+
+
 # --------------------------------------------------------------------------
 # DATA payloads
 
@@ -693,6 +724,100 @@ def main(tier, seed):
     ctx.rule.append(f'tab: {len(tbases)} programs with a TAB character inside a string literal, a DATA item or a '
                     f'comment x (canon + {ntab} seeded blank insertions/removals between tokens): sections and '
                     f'traces must not change')
+
+    # ---- suite decl (letter case of one name at its declaration vs at its uses, every declaration form)
+    templates = G.decl_templates()
+    if quick:
+        dvars = [('cap', 'lower', False), ('lower', 'upper', False), ('upper', 'mixed', True)]
+    else:
+        dvars = [(d, u, False) for d in G.DECL_SPELLINGS for u in G.USE_SPELLINGS if (d, u) != ('lower', 'lower')]
+        dvars += [('upper', 'mixed', True), ('cap', 'lower', True)]
+    if want('decl'):
+        dcases = []
+        for form, text, exp in templates:
+            texts = [G.decl_texts(text, 'lower', 'lower')] + [G.decl_texts(text, d, u, k) for d, u, k in dvars]
+            dcases.append({'texts': texts, 'levels': LEVELS, 'form': form, 'exp': exp})
+        res = vlib.run_impl('lexfn.observe', [{'texts': c['texts'], 'levels': LEVELS} for c in dcases], timeout=TIMEOUT)
+        if not worker_failed(ctx, 'decl', res):
+            for c, r in zip(dcases, res):
+                ctx.bump('decl-form:' + c['form'])
+                for lv in r:
+                    judge_group(ctx, 'decl', c['form'], c['texts'], ['base'] + [f'decl={d};use={u}' + (';kw=lower' if k else '')
+                                                                               for d, u, k in dvars], lv, c['exp'])
+            ctx.count('decl', sum(len(c['texts']) for c in dcases) * len(LEVELS), [t for c in dcases for t in c['texts']])
+            ctx.sample({'suite': 'decl', 'form': dcases[1]['form'], 'texts': dcases[1]['texts'][:2]})
+    ctx.rule.append(f'decl: {len(templates)} declaration forms (SUB/FUNCTION/DECLARE scalar and array parameters, DIM, '
+                    f'DIM SHARED, STATIC, scalar and array, each x 11 type forms: none, % & ! # $, AS INTEGER/LONG/SINGLE/'
+                    f'DOUBLE/STRING; FUNCTION and SUB names, CONST, FOR variable, READ target, DEFtype letter, TYPE name, '
+                    f'field, record variable/array/parameter, labels of GOTO/GOSUB/RESTORE/ON ERROR) x (base + '
+                    f'{len(dvars)} spellings of the ONE declared name: declaration site and use sites respelled '
+                    f'independently); every program observes the variable; each text: verdict ok, printed text = the '
+                    f'text expected by construction, sections 1-4 and device trace identical to the base, levels 0 and 2')
+
+    # ---- suite litcase (lines identical up to letter case inside literals / DATA items / comments)
+    shapes = G.lit_shapes()
+    tuples2 = [(a, b) for a in G.WORD_SPELLINGS for b in G.WORD_SPELLINGS if a != b]
+    tuples3 = [('cap', 'lower', 'inv'), ('upper', 'upper', 'lower'), ('lower', 'upper', 'lower'), ('inv', 'cap', 'upper')]
+    if want('litcase'):
+        lcases = []
+        for si, (shape, fn) in enumerate(shapes.items()):
+            rng = random.Random(f'{seed}-litcase-{shape}')
+            if quick:
+                combos = [(rng.choice(G.WORDS[:2]), rng.choice(tuples2)), (rng.choice(G.WORDS), rng.choice(tuples3))]
+            else:
+                combos = [(w, t) for w in G.WORDS for t in tuples2 + tuples3]
+            for w, sps in combos:
+                ws = [G.spell_word(w, sp) for sp in sps]
+                if len(set(ws)) < 2:
+                    ws[-1] = ws[-1].swapcase() if ws[-1].swapcase() != ws[0] else ws[-1].upper()
+                got = fn(ws)
+                if got is None:
+                    got = fn([G.spell_word('north', sp) for sp in sps])
+                    ws = [G.spell_word('north', sp) for sp in sps]
+                pre, sim, post, exp = got
+                lines = pre + sim + post
+                plain = [G.seg_text(l) for l in lines]
+                texts, hows = ['\n'.join(plain) + '\n'], ['base']
+                idx = list(range(len(pre), len(pre) + len(sim)))
+                for li in idx:
+                    rws = G.LINE_REWRITES if not quick else rng.sample(G.LINE_REWRITES, 3)
+                    for how in rws:
+                        t = G.rewrite_line(lines[li], how)
+                        if t is not None:
+                            texts.append('\n'.join(t if i == li else x for i, x in enumerate(plain)) + '\n')
+                            hows.append(f'line-{how}')
+                # whole-text respellings of the code segments
+                texts.append('\n'.join(G.seg_text(l, str.lower) for l in lines) + '\n'); hows.append('text-case-lower')
+                texts.append('\n'.join(G.seg_text(l, G.swap_words) for l in lines) + '\n'); hows.append('text-case-swap')
+                lcases.append({'texts': texts, 'hows': hows, 'shape': shape, 'exp': [exp] * len(texts), 'group': True})
+                # two compilations in one process: first the text with every literal in lower case, then the
+                # mixed-case one, then the upper-case one, then the mixed-case one again
+                lo = fn([x.lower() for x in ws])
+                up = fn([x.upper() for x in ws])
+                seq, sexp, shows = [], [], []
+                for tag, g in (('all-lower', lo), ('mixed-after-lower', got), ('all-upper', up), ('mixed-after-upper', got)):
+                    seq.append('\n'.join(G.seg_text(l) for l in g[0] + g[1] + g[2]) + '\n')
+                    sexp.append(g[3]); shows.append('seq-' + tag)
+                lcases.append({'texts': seq, 'hows': shows, 'shape': shape, 'exp': sexp, 'group': False})
+        res = vlib.run_impl('lexfn.observe', [{'texts': c['texts'], 'levels': LEVELS} for c in lcases], timeout=TIMEOUT)
+        if not worker_failed(ctx, 'litcase', res):
+            for c, r in zip(lcases, res):
+                ctx.bump('litcase-shape:' + c['shape'])
+                for h in c['hows']:
+                    ctx.bump('litcase:' + h)
+                for lv in r:
+                    judge_group(ctx, 'litcase', c['shape'], c['texts'], c['hows'], lv, c['exp'], same=c['group'])
+            ctx.count('litcase', sum(len(c['texts']) for c in lcases) * len(LEVELS), [t for c in lcases for t in c['texts']])
+            ctx.sample({'suite': 'litcase', 'shape': lcases[0]['shape'], 'texts': lcases[0]['texts'][:3]})
+    ctx.rule.append(f'litcase: {len(shapes)} line shapes ({", ".join(shapes)}) with 2-3 lines that are identical up to '
+                    f'the letter case inside a string literal / DATA item / comment (words {G.WORDS}, spellings '
+                    f'{G.WORD_SPELLINGS}; ' + ('per shape 2 seeded (word, spelling tuple) choices and 3 seeded rewritings per line'
+                                               if quick else f'every word x {len(tuples2) + len(tuples3)} spelling tuples, every rewriting') +
+                    f'); variants rewrite ONE of the similar lines at a time ({", ".join(G.LINE_REWRITES)}) or the whole '
+                    f'text (case of all code); every text: verdict ok, printed text = the text known by construction, '
+                    f'sections and trace identical to the base; plus, per program, the sequence all-lower-literals, mixed, '
+                    f'all-upper-literals, mixed compiled one after the other in ONE process, each judged against its own '
+                    f'expected text; levels 0 and 2')
     return ctx.finish()
 
 
